@@ -240,9 +240,17 @@ def run_property(prop, tier, seed, only_fn=None, verbose=False):
                 jobs.append(j)
                 fr['jobs'].append(j)
                 submit_job(j)
-        # second chance for obligations left open under load: longer budget, idle machine
+        # second chance for obligations left open under load: longer budget, idle machine.  The retries absorb time-outs of a
+        # busy machine -- a handful of obligations on the unchanged tree; when dozens are open the code has changed, more solver
+        # time will not close them, and they are reported as undecided right away (the bounded part still runs)
+        retry_max = int(os.environ.get('VERIF_RETRY_MAX', '24' if tier == 'quick' else '96'))
+        retry_deadline = time.time() + float(os.environ.get('VERIF_RETRY_BUDGET_S', '300' if tier == 'quick' else '1800'))
         retry = [dict(j, timeout_ms=j['timeout_ms'] * 6) for j in jobs
                  if not j['expect_sat'] and (by_id[j['id']]['status'] not in ('unsat', 'sat') or by_id[j['id']].get('tentative'))]
+        if len(retry) > retry_max:
+            print('note: %d obligations open after the first solver pass; no long retries' % len(retry), file=sys.stderr)
+            retry = []
+            retry_deadline = 0
         if retry:
             for r in pool.map(smt.discharge_one, retry, chunksize=1):
                 r['retried'] = True
@@ -251,7 +259,7 @@ def run_property(prop, tier, seed, only_fn=None, verbose=False):
         for seed_ in (7, 23):
             retry = [dict(j, timeout_ms=j['timeout_ms'] * 6, z3_seed=seed_) for j in jobs
                      if not j['expect_sat'] and (by_id[j['id']]['status'] not in ('unsat', 'sat') or by_id[j['id']].get('tentative'))]
-            if not retry:
+            if not retry or time.time() > retry_deadline:
                 break
             for r in pool.map(smt.discharge_one, retry, chunksize=1):
                 r['retried'] = True
